@@ -16,11 +16,13 @@ use std::collections::HashMap;
 #[cfg(not(similari_verif))]
 use std::sync::{Arc, Mutex, MutexGuard};
 #[cfg(similari_verif)]
-use similari_verif_rt::sync::{Arc, Mutex, MutexGuard};
+#[allow(unused_imports)]
+use similari_verif_rt::sync::*;
 #[cfg(not(similari_verif))]
 use std::thread::JoinHandle;
 #[cfg(similari_verif)]
-use similari_verif_rt::thread::JoinHandle;
+#[allow(unused_imports)]
+use similari_verif_rt::thread::*;
 #[cfg(not(similari_verif))]
 use std::{mem, thread};
 #[cfg(similari_verif)]
